@@ -494,6 +494,8 @@ static int vi_search(int cmd, int cnt, int *row, int *off)
 			failed = " not found";
 			break;
 		}
+		if (i + 1 < cnt)	/* where the cursor would be before typing n */
+			o = ren_noeol(lbuf_get(xb, r), o);
 	}
 	if (!failed) {
 		*row = r;
